@@ -125,13 +125,14 @@ func (r *udpResponder) received() int {
 }
 
 type tcpResponder struct {
-	ln     net.Listener
-	mu     sync.Mutex
-	got    [][]byte
-	from   []string
-	script func(req []byte) []step
-	stall  bool
-	reset  bool
+	ln                net.Listener
+	mu                sync.Mutex
+	got               [][]byte
+	from              []string
+	script            func(req []byte) []step
+	stall             bool
+	reset             bool
+	resetAfterRequest bool // take the request, then reset the connection instead of answering
 }
 
 func newTCPResponder(ip string, script func(req []byte) []step) *tcpResponder {
@@ -172,6 +173,10 @@ func newTCPResponderAt(ip string, port int, script func(req []byte) []step) (*tc
 				r.mu.Unlock()
 				if r.stall {
 					time.Sleep(3 * T)
+					return
+				}
+				if r.resetAfterRequest {
+					conn.(*net.TCPConn).SetLinger(0)
 					return
 				}
 				start := time.Now()
